@@ -108,7 +108,24 @@ type inst struct {
 	mmtx    sync.Mutex
 	merging map[string]int // payloads currently inside Merge on this instance (re-gossip of those is the channel's job)
 	bcasts  [][]byte
+	// gossip has not settled on this instance (it has just started and is still joining): the notify.Peer handed to
+	// the pipeline blocks in WaitReady until the flush context is done, as cluster.Peer.WaitReady does
+	unsettled atomic.Bool
 }
+
+// peer is the notify.Peer of one instance.
+type peer struct{ n *inst }
+
+func (p peer) WaitReady(ctx context.Context) error {
+	if !p.n.unsettled.Load() {
+		return nil
+	}
+	<-ctx.Done()
+	return ctx.Err()
+}
+
+// flush timeout of an unsettled round: the dispatcher's minimum (notify.MinTimeout)
+const unsettledTimeout = 10 * time.Second
 
 // integ is one integration of the receiver on one instance.
 type integ struct {
@@ -246,7 +263,7 @@ func (w *world) buildInst(n *inst, snap []byte) {
 	}
 	n.stage = pbld.New(map[string][]notify.Integration{"r": its},
 		func() time.Duration { return time.Duration(pos) * peerTimeout },
-		w.inhibitor, silencer, timeinterval.NewIntervener(nil), marker.NewGroupMarker(), n.log, nil)
+		w.inhibitor, silencer, timeinterval.NewIntervener(nil), marker.NewGroupMarker(), n.log, peer{n})
 }
 
 func (w *world) deliver(src, dst *inst, b []byte) {
@@ -303,7 +320,7 @@ func (w *world) sleepTo(off int64) {
 	synctest.Wait()
 }
 
-func (w *world) flushOne(n *inst, tick int64, alerts string) {
+func (w *world) flushOne(n *inst, tick int64, alerts string, unsettled bool) {
 	var as []*alert.Alert
 	for _, a := range hx.Split(alerts, ",") {
 		p := strings.Split(a, ":")
@@ -314,7 +331,12 @@ func (w *world) flushOne(n *inst, tick int64, alerts string) {
 		}
 		as = append(as, al)
 	}
-	ctx, cancel := context.WithTimeout(context.Background(), time.Hour)
+	to := time.Hour
+	if unsettled {
+		to = unsettledTimeout
+	}
+	n.unsettled.Store(unsettled)
+	ctx, cancel := context.WithTimeout(context.Background(), to)
 	defer cancel()
 	ctx = notify.WithNow(ctx, w.abs(tick))
 	ctx = notify.WithGroupKey(ctx, "g")
@@ -332,6 +354,7 @@ func (w *world) flushOne(n *inst, tick int64, alerts string) {
 }
 
 // round <t> <alerts> <skew0,skew1,…> <accept bits> <delay matrix rows ';' cols ','> [<late0,late1,…>: tick = flush instant − late]
+// [<unsettled bits>: gossip has not settled on that instance, its flush (10 s timeout) must fail with nothing sent or logged]
 func (w *world) exec(line string) string {
 	t := strings.Fields(line)
 	switch t[0] {
@@ -359,11 +382,12 @@ func (w *world) exec(line string) string {
 			if len(t) > 6 {
 				late = hx.Atoi64(strings.Split(t[6], ",")[i])
 			}
+			uns := len(t) > 7 && i < len(t[7]) && t[7][i] == '1'
 			wg.Add(1)
 			go func(n *inst) {
 				defer wg.Done()
 				time.Sleep(time.Duration(sk))
-				w.flushOne(n, t0+sk-late, t[2])
+				w.flushOne(n, t0+sk-late, t[2], uns)
 			}(n)
 		}
 		wg.Wait()
@@ -591,7 +615,15 @@ func runCase(t *testing.T, tr *hx.Trace, id int, r *rand.Rand, script []string) 
 					}
 					lates[i] = strconv.FormatInt(l, 10)
 				}
-				do(fmt.Sprintf("round %d %s %s %s %s %s", now, hx.Join(as, ","), strings.Join(skews, ","), acc, strings.Join(rows, ";"), strings.Join(lates, ",")))
+				// an instance on which gossip has not settled yet (faulty cases only)
+				uns := make([]byte, n)
+				for i := range n {
+					uns[i] = '0'
+					if !healthy && skews[i] != "x" && r.IntN(8) == 0 {
+						uns[i] = '1'
+					}
+				}
+				do(fmt.Sprintf("round %d %s %s %s %s %s %s", now, hx.Join(as, ","), strings.Join(skews, ","), acc, strings.Join(rows, ";"), strings.Join(lates, ","), uns))
 				now += 40*sec + int64(n)*int64(peerTimeout) + 4*sec
 			case x < 16 && !healthy:
 				do(fmt.Sprintf("gc %d %d", now, r.IntN(n)))
